@@ -90,7 +90,7 @@ func TestC06(t *testing.T) {
 		return
 	}
 
-	r.Rapid(t, "sequences", vf.N(5000, 500000), func(t *rapid.T) {
+	r.Rapid(t, "sequences", vf.N(5000, 1000000), func(t *rapid.T) {
 		n := rapid.IntRange(1, 8).Draw(t, "nframes")
 		var c caseC06
 		kinds := make([]string, n)
